@@ -71,7 +71,8 @@ func relRange(t *pt.Term, i int, memo map[*pt.Term][3]int, arrays map[string]boo
 }
 
 type sigger struct {
-	arrays map[string]bool
+	noShift bool
+	arrays  map[string]bool
 	i      int
 	global map[string]bool
 	rr     map[*pt.Term][3]int
@@ -106,7 +107,12 @@ func (s *sigger) sig(t *pt.Term, depth int) string {
 		return out
 	}
 	_, hi, hasEl := relRange(t, s.i, s.rr, s.arrays)
-	if t.Size() > 2 && s.global[t.Key()] && (!hasEl || hi >= 1) {
+	if s.arrays != nil && !hasEl && t.Size() > 1 && mentionsElement(t) {
+		// built only from arrays outside the chain (e.g. the partial products feeding a Barrett tail)
+		out = "OPQ"
+		return out
+	}
+	if t.Size() > 2 && s.global[t.Key()] {
 		out = "GLOBAL"
 		return out
 	}
@@ -123,6 +129,9 @@ func (s *sigger) sig(t *pt.Term, depth int) string {
 		if (t.Op == "shl" || t.Op == "shr") && k == 1 {
 			if n, ok := constOf(a); ok {
 				parts[k] = "#" + strconv.Itoa(n)
+				if s.noShift {
+					parts[k] = "#s"
+				}
 				continue
 			}
 		}
@@ -203,19 +212,7 @@ func Lonely(pattern string) []int {
 
 // OwnConsts lists the integer constants of a stage's own part (outside PREV / GLOBAL sub-terms), shift amounts excluded.
 func OwnConsts(stages []*pt.Term, i int, arrays map[string]bool) []int {
-	var global map[string]bool
-	for k := 1; k+1 < len(stages); k++ {
-		ks := subKeys(stages[k])
-		if global == nil {
-			global = ks
-			continue
-		}
-		for x := range global {
-			if !ks[x] {
-				delete(global, x)
-			}
-		}
-	}
+	global := globals(stages, arrays)
 	rr := map[*pt.Term][3]int{}
 	seen := map[*pt.Term]bool{}
 	var out []int
@@ -230,7 +227,7 @@ func OwnConsts(stages []*pt.Term, i int, arrays map[string]bool) []int {
 			return
 		}
 		_, hi, hasEl := relRange(t, i, rr, arrays)
-		if t.Size() > 2 && global[t.Key()] && (!hasEl || hi >= 1) {
+		if t.Size() > 2 && global[t.Key()] {
 			return
 		}
 		if hasEl && hi < 0 {
@@ -295,32 +292,73 @@ func subKeys(t *pt.Term) map[string]bool {
 	return m
 }
 
-// Deviants returns the indices in [from,to) whose signature differs from the most common one.
-func Deviants(stages []*pt.Term, from, to int, arrays map[string]bool) (dev []int, ref string, sigs []string) {
-	if to > len(stages) {
-		to = len(stages)
+// globals computes the maximal sub-terms common to every stage that mention no chain element or mention the
+// highest limb (e.g. the final select mask of a conditional subtraction); prefix sums of the chain are excluded.
+func globals(stages []*pt.Term, arrays map[string]bool) map[string]bool {
+	n := len(stages)
+	if n < 2 {
+		return map[string]bool{}
 	}
-	// sub-terms common to every stage in range
-	var global map[string]bool
-	for i := from; i < to; i++ {
+	common := subKeys(stages[0])
+	for i := 1; i < n; i++ {
 		ks := subKeys(stages[i])
-		if global == nil {
-			global = ks
-			continue
-		}
-		for k := range global {
+		for k := range common {
 			if !ks[k] {
-				delete(global, k)
+				delete(common, k)
 			}
 		}
 	}
-	if to-from < 2 {
-		global = map[string]bool{}
+	terms := map[string]*pt.Term{}
+	stages[0].Walk(func(x *pt.Term) {
+		if common[x.Key()] {
+			terms[x.Key()] = x
+		}
+	})
+	out := map[string]bool{}
+	for k, t := range terms {
+		rr := map[*pt.Term][3]int{}
+		_, hi, has := relRange(t, 0, rr, arrays)
+		if has && hi != n-1 {
+			continue
+		}
+		out[k] = true
 	}
+	for k, t := range terms {
+		if !out[k] {
+			continue
+		}
+		for k2, t2 := range terms {
+			if k2 != k && out[k2] && t2.Size() > t.Size() {
+				contained := false
+				t2.Walk(func(x *pt.Term) {
+					if x.Key() == k {
+						contained = true
+					}
+				})
+				if contained {
+					delete(out, k)
+					break
+				}
+			}
+		}
+	}
+	return out
+}
+
+// Deviants returns the indices in [from,to) whose signature differs from the most common one.
+func Deviants(stages []*pt.Term, from, to int, arrays map[string]bool) (dev []int, ref string, sigs []string) {
+	return deviants(stages, from, to, arrays, false)
+}
+
+func deviants(stages []*pt.Term, from, to int, arrays map[string]bool, noShift bool) (dev []int, ref string, sigs []string) {
+	if to > len(stages) {
+		to = len(stages)
+	}
+	global := globals(stages, arrays)
 	count := map[string]int{}
 	sigs = make([]string, len(stages))
 	for i := from; i < to; i++ {
-		s := &sigger{arrays: arrays, i: i, global: global, rr: map[*pt.Term][3]int{}, memo: map[*pt.Term]string{}}
+		s := &sigger{noShift: noShift, arrays: arrays, i: i, global: global, rr: map[*pt.Term][3]int{}, memo: map[*pt.Term]string{}}
 		sigs[i] = s.sig(stages[i], 14)
 		count[sigs[i]]++
 	}
@@ -336,4 +374,85 @@ func Deviants(stages []*pt.Term, from, to int, arrays map[string]bool) (dev []in
 		}
 	}
 	return
+}
+
+// ClassesNoShift is Classes with shift amounts abstracted.
+func ClassesNoShift(stages []*pt.Term, arrays map[string]bool) (string, []string) {
+	_, _, sigs := deviants(stages, 0, len(stages), arrays, true)
+	cls := map[string]int{}
+	var pat []byte
+	for _, sg := range sigs {
+		if _, ok := cls[sg]; !ok {
+			cls[sg] = len(cls)
+		}
+		pat = append(pat, byte('A'+cls[sg]%26))
+	}
+	return string(pat), sigs
+}
+
+// Links returns, for each stage i >= 1, the signature (relative to stage i-1) of what stage i takes from the
+// previous stages: its maximal sub-terms that mention lower limbs only (the incoming carry / borrow).
+func Links(stages []*pt.Term, arrays map[string]bool) []string {
+	l, _ := LinksShifts(stages, arrays)
+	return l
+}
+
+// LinksShifts also returns, per stage, the right-shift amount at the root of the incoming carry (-1 if none).
+func LinksShifts(stages []*pt.Term, arrays map[string]bool) ([]string, []int) {
+	global := globals(stages, arrays)
+	out := make([]string, len(stages))
+	shifts := make([]int, len(stages))
+	for i := range shifts {
+		shifts[i] = -1
+	}
+	for i := 1; i < len(stages); i++ {
+		rr := map[*pt.Term][3]int{}
+		seen := map[*pt.Term]bool{}
+		found := map[string]bool{}
+		prev := &sigger{noShift: true, arrays: arrays, i: i - 1, global: global, rr: map[*pt.Term][3]int{}, memo: map[*pt.Term]string{}}
+		var rec func(t *pt.Term)
+		rec = func(t *pt.Term) {
+			if t == nil || seen[t] || len(t.Args) == 0 {
+				return
+			}
+			seen[t] = true
+			if t.Size() > 2 && global[t.Key()] {
+				return
+			}
+			if t.Op == "at" {
+				return
+			}
+			if _, hi, has := relRange(t, i, rr, arrays); has && hi < 0 {
+				found[prev.sig(t, 14)] = true
+				if t.Op == "shr" && len(t.Args) == 2 {
+					if n, ok := constOf(t.Args[1]); ok {
+						shifts[i] = n
+					}
+				}
+				return
+			}
+			for _, a := range t.Args {
+				rec(a)
+			}
+		}
+		rec(stages[i])
+		var ls []string
+		for k := range found {
+			ls = append(ls, k)
+		}
+		sort.Strings(ls)
+		out[i] = strings.Join(ls, " ; ")
+	}
+	return out, shifts
+}
+
+// mentionsElement reports whether t contains any array element at a constant index.
+func mentionsElement(t *pt.Term) bool {
+	return t.Contains(func(x *pt.Term) bool {
+		if x.Op == "at" && len(x.Args) == 2 {
+			_, ok := constOf(x.Args[1])
+			return ok
+		}
+		return false
+	})
 }
